@@ -23,3 +23,11 @@ chk("C10","exploration",
  "Twin differential: the same generated history on a never-closed store and on a store reopened at generated points with generated configurations; both compared with the model and with each other (root, values, seqn, proofs, hash-table occupancy, commit/rollback outcomes).",
  "Trusts the model; rollback depths in the statement's unspecified region are clamped to the guaranteed depth.",
  "property-based testing: differential (twin store) + model oracle (proptest)","DESIGN.md §3 C10")
+chk("C03","fault_enumeration",
+ "For generated histories the last operation (session/overlay commit, rollback, reopen) is traced through the I/O hook and process-crash images are synthesised at every event boundary (in-flight writes none/all/random), opened with Nomt::open and judged against the model's pre/post state (root, seqn, all values, proofs, rollback probe, further commit); crashes during the recovery open are enumerated the same way (nested).",
+ "Crash points are enumerated exhaustively per generated operation (up to the image budget, evenly strided beyond it), not for all histories. Images are synthesised from a shadow file system fed by the hook; a byte-for-byte shadow-vs-disk comparison at quiescent points guards hook completeness. Page writes are assumed atomic.",
+ "fault injection by enumeration of crash points over generated histories (proptest + I/O hook + shadow FS images), model-based oracle","DESIGN.md §3 C03")
+chk("C04","fault_enumeration",
+ "Same operations as C03, with power-loss images at every event boundary: durable state (fsync coverage tracked per file and per directory) plus admissible parts of the volatile writes (none, all, all-but/only one file class, random prefix/subset choices), incl. power loss during the recovery open; judged against pre/post.",
+ "Fault class limited to the one the statement admits (lost subsets of unsynced in-place page writes, page-aligned prefixes of unsynced appends, prefix of directory operations). fsync coverage rule: an fsync makes durable the writes completed before it started.",
+ "fault injection by enumeration of power-loss images over generated histories (proptest + I/O hook + shadow FS durability model), model-based oracle","DESIGN.md §3 C04")
